@@ -72,7 +72,8 @@ func clientMain(args []string) {
 	hx.Quiet()
 	// A message-driven resource leak must stay inside this process: few descriptors, so that a loop
 	// opening sockets fails here instead of eating the machine's ephemeral ports.
-	_ = syscall.Setrlimit(syscall.RLIMIT_NOFILE, &syscall.Rlimit{Cur: 600, Max: 600})
+	// (1400 = the 1024 sockets MakeHole may open at most for one NatHoleResp + room for everything else)
+	_ = syscall.Setrlimit(syscall.RLIMIT_NOFILE, &syscall.Rlimit{Cur: 1400, Max: 1400})
 	ip := args[0]
 	serverPort, _ := strconv.Atoi(args[1])
 	stun := args[2]
